@@ -55,6 +55,7 @@ class Universe(object):
         self.merges = []    # (dest index, source index) of Section merges that succeeded
         self.templates = None  # the run's TemplateHandler (created on first use)
         self.validations = []  # (Validation, object) pairs the harness keeps for a later re-run
+        self.kept_card_vals = {}  # root index -> Validation kept by the cardinality monitor
         self.corrupt = None  # set by the structural guard
 
     # -- registry ---------------------------------------------------------
